@@ -40,7 +40,10 @@ CFG = PropCfg(
          "opens by REQ (ids 0..5 of both parities, both reliabilities, duplicate REQs), local Create* (+RESP), "
          "interleaved in-order/swapped/duplicated data on up to 6 tubes, frames for absent tubes, peer FINs, reads, "
          "writes, reaps (harness plays the peer's half of the close handshake and waits for the reaper) and "
-         "re-opens of the same id up to 3 times; concurrent Create* bursts of 1..129 calls after the peer took "
+         "re-opens of the same id up to 3 times; closes that do NOT wait for the reaper (shut) followed by stragglers of "
+         "the closed tube, creations and accepts during the reservation (the harness reads the sender's RTT: an "
+         "identifier released after less than one RTT is reported `early`; if more than 2 RTT pass before the "
+         "dependent operations ran - a very slow machine - the rest of the case is not compared); concurrent Create* bursts of 1..129 calls after the peer took "
          "some ids; every answer (Accept results, ids, bytes/messages read, EOF, tube presence) is compared with "
          "the Lean model. suite C09late (monitor): histories containing datagrams of a reaped incarnation; the "
          "Lean monitor checks the Spec 'late datagrams are unobservable' (C09_full) by running the model without "
@@ -48,7 +51,8 @@ CFG = PropCfg(
          "late datagram (C09late).",
     assumptions=["NoLateFrames for the isolation from earlier tubes with the same id (C09_late_partial); without it "
                  "the clause is false (C09_full_false, known finding F11)",
-                 "close handshakes and reaper timers are not modelled (abstract event reap)"],
+                 "close handshakes and reaper timers are not modelled (abstract events shut = closed and reserved, reap = "
+                 "released); the harness asserts the timer's lower bound (4*RTT, judged at 1*RTT)"],
 )
 
 MANIFEST = {
@@ -60,7 +64,11 @@ MANIFEST = {
             "addressed to (C09_no_crosstalk), unreliable tubes queue one whole frame payload per message and reads "
             "return the oldest (C09_unreliable_whole). The late-packet clause is stated in full (C09_full), refuted "
             "with concrete witnesses (C09_full_false: frames carry no tube generation) and proved under NoLateFrames "
-            "(C09_late_partial). Tied to the code by differential runs of a real Muxer over a scripted MsgConn and a "
+            "(C09_late_partial); for the window in which reapTube keeps the identifier of a closed reliable tube of the "
+            "muxer's parity reserved it holds with no assumption on the network: C09_shut_reserves, "
+            "C09_reserved_frame_dropped (a datagram for a closed tube still in the map changes nothing), "
+            "C09_reserved_not_reused, C09_late_in_reservation (over every history, datagrams arriving while their "
+            "tube is closed and not yet reaped are unobservable and leave the same final state). Tied to the code by differential runs of a real Muxer over a scripted MsgConn and a "
             "monitor suite that replays the late-frame witnesses on the real Muxer (known finding F11).",
     "design_ref": "DESIGN.md 5.9",
     "note": "Partial: isolation from earlier tubes with the same id holds only without late frames (F11, known). "
